@@ -1,7 +1,9 @@
 """C14 - configuration reload is all-or-nothing, also under concurrent lookups."""
 import json
 import random
+import re
 
+import e2e_engine as E2E
 import gen_glob as GG
 import gen_mapper as GM
 import genproof
@@ -19,20 +21,24 @@ def lock_obligation(rep, tier):
         rep.violation("the access table could not be regenerated from /repo", dict(log=log), no_input=True)
         return
     ok, out = genproof.compile_obligation("C14_locks.v")
+    thm = genproof.failed_theorem("C14_locks.v", out) if not ok else ""
     scen = ["mapper lru 3 4 150", "mapper none 0 4 100"] if tier == "quick" else ["mapper lru 3 8 1500", "mapper rr 2 8 1500", "mapper none 0 8 1000"]
     n, text = genproof.race_hunt(scen)
-    rep.extra["lock_obligation"] = "C14_mapper_fields_locked " + ("checked" if ok else "FAILED")
+    rep.extra["lock_obligation"] = ("C14_mapper_fields_locked, C14_reload_one_critical_section, C14_lookup_one_critical_section, "
+                                    "C14_cache_changes_inside_mapper_lock: " + ("checked" if ok else "FAILED at " + thm))
     rep.extra["race_reports"] = n
-    mixed = [ln for ln in (text or "").splitlines() if "mixed=" in ln and "mixed=0" not in ln]
+    mixed = [ln for ln in (text or "").splitlines() if "mixed=" in ln and ("mixed=0" not in ln or "stale=0" not in ln)]
     if not ok:
         sites = genproof.unlocked_sites(MAPPER_FIELDS, "MetricMapper.mutex")
         if n or mixed:
-            rep.violation("a lookup can observe a reload in progress: fields swapped by a reload are accessed outside the mapper's lock",
-                          dict(unlocked_sites=sites, race_report=text[:3000], scenarios=scen))
+            rep.violation("a lookup can observe a reload in progress (mixed / stale answers, or a data race): generated obligation %s no longer checks" % thm,
+                          dict(failed_theorem=thm, unlocked_sites=sites, race_output=text[:3000], scenarios=scen,
+                               how_to_read="scenario 'mapper <cache> <size> <N> <ms>': N goroutines call GetMapping while one goroutine alternates two configurations; "
+                                           "mixed = answers combining both, stale = answers from the previous configuration after InitFromYAMLString returned"))
         else:
-            rep.violation("generated obligation C14_mapper_fields_locked no longer checks", dict(unlocked_sites=sites, theorem="coq/theories/Properties/C14_locks.v", coqc=out[-800:]), no_input=True)
+            rep.violation("generated obligation %s no longer checks" % (thm or "in C14_locks.v"), dict(failed_theorem=thm, unlocked_sites=sites, theorem_file="coq/theories/Properties/C14_locks.v", coqc=out[-800:]), no_input=True)
     elif mixed:
-        rep.violation("a lookup racing with a reload was answered by a mixture of two configurations", dict(output=text[:2000], scenarios=scen))
+        rep.violation("a lookup racing with a reload was answered by a mixture of two configurations, or by the previous configuration after the reload returned", dict(output=text[:2000], scenarios=scen))
     elif n:
         rep.violation("the race detector reports a data race between lookups and a reload", dict(race_report=text[:3000], scenarios=scen))
 
@@ -72,7 +78,7 @@ def run(rep, tier, seed, replay):
             classes[e] = classes.get(e, 0) + 1
         qs = QUERIES + [(rnd.choice(["counter", "gauge", "observer"]), GG.random_name(rnd)) for _ in range(6)]
         qops = [GM.query_op(t, n) for t, n in qs]
-        for cache in (("none", 0), ("lru", 3)):
+        for cache in (("none", 0), ("lru", 3 if len(cases) % 4 else 1000)):      # a large cache keeps entries across the reload
             ops = []
             for cfg, e in steps:
                 ops.append(GM.load_op(cfg))
@@ -140,4 +146,9 @@ def run(rep, tier, seed, replay):
     rep.extra["config_classes"] = classes
     if not replay:
         lock_obligation(rep, tier)
+    if not replay and len(rep.violations) < 5:
+        # the binary's own reload paths (/-/reload and SIGHUP, mapping file behind a re-pointed symbolic link)
+        E2E.run(rep, "C14", tier, seed, n_quick=40, n_thorough=1200, gen=E2E.gen_reload_case, key="e2e_reload")
+        rep.cov["rule"] += ("; plus %d end-to-end histories of 3-5 reloads of the built binary (valid ones changing defaults and rules, invalid ones), by /-/reload or SIGHUP, "
+                            "lines and a scrape after each, compared with the model" % rep.extra.get("e2e_reload_cases", 0))
     rep.sample(dict(case=cases[0][:600], impl=impl[0][:8]))
